@@ -208,6 +208,7 @@ Definition handle_new_result (c : cfg) (fuel : nat) (s : St) (i : wid) (r : res)
 (* the pool reads one message (or EOF) from the pipe of worker i *)
 Definition recv_one (c : cfg) (fuel : nat) (s : St) (i : wid) : R :=
   let wi := w s i in
+  if (n c <=? i)%nat then Go s else
   if negb (qpres wi) then Go s else
   match q wi with
   | MRes x r :: q' => handle_new_result c fuel (set_q s i q') i r
@@ -241,7 +242,10 @@ Definition exact_ready (c : cfg) (s : St) (order : list wid) : bool :=
   Nat.eqb (length order) (length (filter (ready s) (seq 0 (n c)))).
 
 (* environment steps *)
+Definition op_wid (o : op) : wid := match o with Ans i | Fail i | Exit i => i | Poll _ => O end.
+
 Definition env_step (c : cfg) (s : St) (o : op) : St :=
+  if (n c <=? op_wid o)%nat then s else
   match o with
   | Ans i =>
       let wi := w s i in
